@@ -137,6 +137,12 @@ func c04Matrix(r *Run) {
 	cases = append(cases, c04Case{Issuer: 7, AKI: kArg, AKIDer: kDer, Signer: "leafski", Chains: [][]string{{"L", "ca1"}}, Leaf: "leafski"})
 	cases = append(cases, c04Case{Issuer: 7, AKI: "-", Signer: "leafname", Chains: [][]string{{"L", "ca1"}}, Leaf: "leafname"})
 	cases = append(cases, c04Case{Issuer: 7, AKI: "-", Signer: "canocrl", Chains: [][]string{{"L", "canocrl"}}, Leaf: "leaf"})
+	// the end-entity as the only certificate of its chain (pinned in the trust pool) signing a CRL about itself
+	k76, k76Der := c04AKI(76, nil, false)
+	cases = append(cases, c04Case{Issuer: 100, AKI: k76, AKIDer: k76Der, Signer: "leaf", Chains: [][]string{{"L"}}, Leaf: "leaf"})
+	cases = append(cases, c04Case{Issuer: 100, AKI: "-", Signer: "leaf", Chains: [][]string{{"L"}}, Leaf: "leaf"})
+	cases = append(cases, c04Case{Issuer: 7, AKI: "-", Signer: "leafname", Chains: [][]string{{"L"}}, Leaf: "leafname"})
+	cases = append(cases, c04Case{Issuer: 7, AKI: kArg, AKIDer: kDer, Signer: "leafski", Chains: [][]string{{"L"}, {"L", "ca2"}}, Leaf: "leafski"})
 	for len(cases) < n {
 		c := c04Case{Issuer: []int{7, 7, 7, 8, 9, 10}[rng.Intn(6)], Signer: signers[rng.Intn(len(signers))],
 			Chains: chainShapes[rng.Intn(len(chainShapes))], Trusted: trustedSets[rng.Intn(len(trustedSets))],
@@ -153,6 +159,22 @@ func c04Matrix(r *Run) {
 		case 5:
 			from := c04Certs[[]string{"ca1", "ca3", "t9"}[rng.Intn(3)]]
 			c.AKI, c.AKIDer = c04AKI([]int{71, 73, 99}[rng.Intn(3)], from, false)
+		}
+		// one case in eight: the end-entity signs the CRL about itself, issued under its own name or pointing at its own key id
+		if rng.Intn(8) == 0 {
+			c.Signer = c.Leaf
+			lc := c04Certs[c.Leaf]
+			c.Issuer = lc.Subject
+			if rng.Intn(2) == 0 {
+				c.AKI, c.AKIDer = c04AKI(lc.SKI, nil, false)
+			} else {
+				c.AKI, c.AKIDer = "-", nil
+			}
+			if rng.Intn(2) == 0 {
+				c.Chains = [][]string{{"L"}}
+			}
+			cases = append(cases, c)
+			continue
 		}
 		// half of the cases: steer towards an acceptable constellation (signer presented above the end-entity or trusted,
 		// CRL issued under the signer's name, AKI absent or pointing at the signer), then perturb one coordinate at random
@@ -224,7 +246,7 @@ func c04Matrix(r *Run) {
 		// presented chains: "L" is the end-entity of the case, re-issued with this case's CDP
 		leafT := c04Certs[c.Leaf]
 		leafCA := &CA{Cert: c04Certs["ca1"].Cert, Key: c04Certs["ca1"].Signer}
-		lo := LeafOpts{CN: leafT.Cert.Subject.CommonName, CDP: []string{origin.URL(path)}, Key: leafT.Signer, Serial: big.NewInt(int64(900000 + i))}
+		lo := LeafOpts{CN: leafT.Cert.Subject.CommonName, CDP: []string{origin.URL(path)}, Key: leafT.Signer, Serial: big.NewInt(int64(900000 + i)), NoKU: leafT.KU == "-", RawSub: leafT.Cert.RawSubject}
 		if leafT.SKI != 0 {
 			lo.SKI = c04SKI(leafT.SKI)
 		}
